@@ -1642,6 +1642,7 @@ func decoderRules(c *Ctx, prop string) {
 	if prop == "C07" {
 		r.Rule("C07/CHAIN-INTEGRITY", "every append to a fragment-chain field is reached only after a reset of the chain in the same call, or through the passing edge of a continuity check (sequence number == expected, wire offset == accumulated size, accumulator == 0)", 16)
 		r.Rule("C07/TS-SYNC", "where a decoder flushes its buffer when the packet timestamp differs from a recorded one, every growth of that buffer leaves the recorded timestamp equal to the packet's (otherwise one damaged unit makes every later packet look like a new unit)", 2)
+		r.Rule("C07/ERR-RESETS", "a packet that is refused with an error while a fragment chain may be in progress discards the chain: every error return of a Decoder method is reached through a reset of the chain or through the edge on which the chain is known to be empty (otherwise, after a lost fragment, packets of the refused kind are refused for ever and the decoder never resynchronises)", 10)
 		r.Rule("C07/ROLE-TABLE", "every persistent slice field of a Decoder has a reviewed role (fragment chain or unit list) that agrees with its usage", 16)
 		r.Rule("C07/ACC-SYNC", "every reset helper of a fragment chain also zeroes the chain's size accumulator, so 'accumulator == 0' means no stale bytes", 9)
 	}
@@ -1686,6 +1687,9 @@ func decoderRules(c *Ctx, prop string) {
 						r.FailPath("C07/CHAIN-INTEGRITY", construct, pos, "the chain can be extended without a reset in this call and without passing a continuity check: stale or foreign fragments end up in the next unit", wit)
 					}
 				}
+			}
+			if prop == "C07" && chain {
+				m.errResets(c, short, f)
 			}
 			if prop == "C07" && chain {
 				// ACC-SYNC: resetters of f zero every int accumulator that is compared with 0 as an emptiness test
@@ -1844,4 +1848,101 @@ func init() {
 		decoderRules(c, "C08")
 		noPanicFor(c, "C08")
 	}
+}
+
+// errResets: C07/ERR-RESETS for chain field f. Only routes that pass the
+// edge on which the chain is known to be NON-empty are examined: the decoders
+// legitimately return sentinel errors (more packets needed) and refuse
+// malformed packets before looking at their state.
+func (m *decModel) errResets(c *Ctx, short string, f *types.Var) {
+	p, r := c.P, c.R
+	for _, fn := range m.methods {
+		if fn.Signature.Recv() == nil || core.NamedOfShort(core.Deref(fn.Signature.Recv().Type())) != "Decoder" {
+			continue
+		}
+		res := fn.Signature.Results()
+		if res.Len() == 0 || !isErrorType(res.At(res.Len()-1).Type()) {
+			continue
+		}
+		edges := m.continuityEdges(p, fn)
+		// the complementary (non-empty) edges
+		type edge struct{ from, to *ssa.BasicBlock }
+		var nonEmpty []edge
+		for k, kind := range edges {
+			if !strings.Contains(kind, "empty chain") {
+				continue
+			}
+			b := fn.Blocks[k[0]]
+			for _, sc := range b.Succs {
+				if sc.Index != k[1] {
+					nonEmpty = append(nonEmpty, edge{b, sc})
+				}
+			}
+		}
+		sort.Slice(nonEmpty, func(i, j int) bool { return nonEmpty[i].to.Index < nonEmpty[j].to.Index })
+		for i, e := range nonEmpty {
+			avoid := func(in ssa.Instruction) bool {
+				if _, ok := m.resetEvent(in, f); ok {
+					return true
+				}
+				// a route that extends the chain accepts the packet ("more packets needed" is not a refusal)
+				for _, st := range m.fields[f] {
+					if (st.kind == skGrow || st.kind == skTruncGrow) && in == ssa.Instruction(st.st) {
+						return true
+					}
+				}
+				return false
+			}
+			target := func(in ssa.Instruction) bool {
+				rt, ok := in.(*ssa.Return)
+				return ok && !isNilConst(rt.Results[len(rt.Results)-1])
+			}
+			found, path, at := pathFromBlock(e.to, target, avoid)
+			construct := fmt.Sprintf("%s %s refusals while %s is non-empty #%d", short, fnShort(fn), f.Name(), i+1)
+			if found {
+				pos := p.Pos(fn.Pos())
+				if at != nil {
+					pos = p.Pos(at.Pos())
+				}
+				r.FailPath("C07/ERR-RESETS", construct, pos, "a packet is refused on a route where "+f.Name()+" is known to hold a partial unit and nothing discards it: packets of that kind are refused for ever after a lost fragment", core.BlockPath(p, fn, path))
+			} else {
+				r.OK("C07/ERR-RESETS", construct, p.Pos(e.from.Instrs[len(e.from.Instrs)-1].Pos()), "every refusal after the non-empty edge passes a reset")
+			}
+		}
+	}
+}
+
+// pathFromBlock: breadth-first search from the start of block b to an
+// instruction satisfying to, not passing an instruction satisfying avoid.
+func pathFromBlock(b *ssa.BasicBlock, to, avoid func(ssa.Instruction) bool) (bool, []int, ssa.Instruction) {
+	parent := map[*ssa.BasicBlock]*ssa.BasicBlock{b: nil}
+	q := []*ssa.BasicBlock{b}
+	for len(q) > 0 {
+		x := q[0]
+		q = q[1:]
+		blocked := false
+		for _, in := range x.Instrs {
+			if to(in) {
+				var path []int
+				for y := x; y != nil; y = parent[y] {
+					path = append([]int{y.Index}, path...)
+				}
+				return true, path, in
+			}
+			if avoid(in) {
+				blocked = true
+				break
+			}
+		}
+		if blocked {
+			continue
+		}
+		for _, sc := range x.Succs {
+			if _, seen := parent[sc]; !seen {
+				parent[sc] = x
+				q = append(q, sc)
+			}
+		}
+	}
+	return false, nil, nil
 }
